@@ -414,6 +414,45 @@ pub fn families() -> Vec<Box<dyn Family>> {
         ),
 
         family(
+            "exact_run_lengths",
+            "ONE token of an exact length: a run of L word characters, of L blanks, of L two-byte letters or a line of L bytes, with L in {254..258, 32766..32770, 65533..65538, 131069..131073, 196604..196606} (the values around 2^8, 2^15, 2^16, 2^17 and the multiples of 2^16 - 1), in front of a token of another class and behind a short one - counters and length fields of every width - x 6 tokenizers x {[u8], str}",
+            true,
+            1,
+            |cfg| if cfg.tiny { 4 } else { 24 * 4 },
+            |idx, cfg, out| {
+                const LENS: [usize; 24] = [254, 255, 256, 257, 258, 32766, 32767, 32768, 32769, 32770, 65533, 65534, 65535, 65536, 65537, 65538, 131069, 131070, 131071, 131072, 131073, 196604, 196605, 196606];
+                let l = if cfg.tiny { 5 + idx as usize } else { LENS[(idx % 24) as usize] };
+                let kind = idx / 24 % 4;
+                let mut t: Vec<u8> = b"go ".to_vec();
+                match kind {
+                    0 => {
+                        t.extend(std::iter::repeat(b'a').take(l));
+                        t.extend_from_slice(b" tail\n");
+                    }
+                    1 => {
+                        t.extend(std::iter::repeat(b' ').take(l));
+                        t.extend_from_slice(b"tail\n");
+                    }
+                    2 => {
+                        for _ in 0..l {
+                            t.extend_from_slice("\u{e9}".as_bytes());
+                        }
+                        t.extend_from_slice(b"\tx\r\n");
+                    }
+                    _ => {
+                        // a whole line of exactly l bytes (terminator included), then another line
+                        t.clear();
+                        t.extend(std::iter::repeat(b'q').take(l - 1));
+                        t.extend_from_slice(b"\nnext line\n");
+                    }
+                }
+                out.sample(|| format!("{} bytes: one run of exactly {} (kind {})", t.len(), l, kind));
+                out.nontrivial(&(l, kind));
+                out.count("exact_run_length_inputs");
+                check_input(&t, cfg.tiny, out);
+            },
+        ),
+        family(
             "deep_many_tokens",
             "STACK DEPTH: texts of 100000..400000 short lines (and of that many words / characters) through every tokenizer, str and [u8]; run with the stack of an ordinary thread in the small-stack stage (an unoptimised build): the tokenizer must return (losslessly) and not exhaust the stack",
             false,
